@@ -533,6 +533,8 @@ pub fn run(ctx: &mut Ctx) {
     let (n, trials) = ctx.tier.pick((300_000u32, 400_000u64), (5_000_000, 5_000_000));
     ctx.run_prop("invariants", n, strategy, oracle);
     run_jobs(ctx, "weight_laws", law_jobs(ctx.seed), trials);
+    // coverage-guided search over the same strategies and oracles (thorough tier; see ptfuzz.rs)
+    crate::ptfuzz::thorough(ctx, &[("c13", 16, 1_500_000)]);
 }
 
 pub fn replay(ctx: &mut Ctx, sub: &str, case: &Value) {
